@@ -197,9 +197,9 @@ class Check:
             wanted = re.findall(r"^#print axioms\s+(\S+)", open(os.path.join(LEAN, "Audit", af)).read(), re.M)
             self.obligations += wanted
             found = {}
-            for m in re.finditer(r"'([^']+)' depends on axioms: \[([^\]]*)\]", out.replace("\n ", " ")):
+            for m in re.finditer(r"'(\S+)' depends on axioms: \[([^\]]*)\]", out.replace("\n ", " ")):
                 found[m.group(1)] = {a.strip() for a in m.group(2).split(",") if a.strip()}
-            for m in re.finditer(r"'([^']+)' does not depend on any axioms", out):
+            for m in re.finditer(r"'(\S+)' does not depend on any axioms", out):
                 found[m.group(1)] = set()
             for w in wanted:
                 ax = found.get(w)
